@@ -90,6 +90,8 @@ CASES = [
     ('zero-d-array-of-a-scalar', 'q = numpy.asarray(a, dtype="float64")\nk = numpy.asarray(3)\nv = numpy.asarray([a, b]) * (1 - q)\n'
      'r = [len(q.shape), q.ndim, q.size, len(k.shape), int(hasattr(2.5, "shape")), float(-q), float(q.tolist())] + v.tolist()', dict(a='real', b='real')),
     ('negated-mask-selection-assigned', 'm = numpy.array([a, 0.0, b])\nq = numpy.array([c, d, e])\nm[m == 0] = -q[m == 0]\nr = m.tolist()', dict(a='real', b='real', c='real', d='real', e='real')),
+    ('sort-rows-of-2d-and-object-array-keeps-None', 'm = numpy.sort(numpy.asarray([(a, b), (c, d)]).transpose())\no = numpy.asarray([(a, None), (b, 2.0)]).transpose()\n'
+     'r = m.ravel().tolist() + [int(o.dtype == object), int(m.dtype != object), int(o.tolist()[1][0] is None), o.tolist()[0][1]]', dict(a='real', b='real', c='real', d='real')),
     ('symbolic-int-array-index', 'S = numpy.array([-1.0, 0.0, 2.0])\ncnt = numpy.sum(a > S)\nlo = max(0, cnt - 1)\nr = S[numpy.array([lo, lo])].tolist() + [int(cnt)]', dict(a='real')),
 ]
 
